@@ -53,4 +53,19 @@ def run(rep, tier, seed, replay):
 
 
 def search(rep, tier, seed, ctx):
-    return False
+    """a tie is broken before any comparison was made (e.g. the translator met code outside its fragment): look for a key on which
+    the implementation disagrees with the bit-by-bit specification"""
+    try:
+        vlib.prepare_runners()
+        res = differential(rep, PROP, "c12", seed, 20000 if tier == "quick" else 300000, tier, model_modes=["c12spec"])
+    except vlib.Broken:
+        return False
+    cases, impl, spec = res["cases"], res["impl"], res["models"]["c12spec"]
+    ms = vlib.diff_lines(impl, spec)
+    add_corr(rep, "slot/crc16/hashtag: implementation vs bitwise specification (search after a broken tie)", res, ms, len({c for c in cases if c}))
+    if not ms:
+        return False
+    i = min(ms, key=lambda j: (len(cases[j]), cases[j]))
+    rep.violation({"kind": "input", "oracle": "slot(key) = CRC16/XMODEM(hashtag(key)) mod 16384 (bitwise specification, independent of the table)",
+                   "case": describe(cases[i], impl[i], spec[i]), "disagreeing_cases": len(ms), "broken_tie": ctx.get("broken")})
+    return True
